@@ -3,6 +3,7 @@ module verif
 go 1.26.8
 
 require (
+	github.com/fsnotify/fsnotify v1.7.0
 	github.com/prometheus/client_golang v1.18.0
 	github.com/refraction-networking/utls v1.6.0
 	github.com/wi1dcard/fingerproxy v0.0.0
@@ -15,7 +16,6 @@ require (
 	github.com/cespare/xxhash/v2 v2.2.0 // indirect
 	github.com/cloudflare/circl v1.3.7 // indirect
 	github.com/dreadl0ck/tlsx v1.0.1-google-gopacket // indirect
-	github.com/fsnotify/fsnotify v1.7.0 // indirect
 	github.com/google/gopacket v1.1.18 // indirect
 	github.com/klauspost/compress v1.17.4 // indirect
 	github.com/matttproud/golang_protobuf_extensions/v2 v2.0.0 // indirect
